@@ -307,7 +307,7 @@ def evaluate_ddp_like(trace: dict, sim, outs, prop: str, probes: Counter, replic
         if prev_mask is not None and mask != prev_mask:
             probes["presence_changed_world"] += 1
         prev_mask = mask
-        if all(len(o.groups_info) == len(trace["groups"]) for o in outs):
+        if True:
             sr = worldrun.starved_ranks(trace, outs, ev)
             if sr and first_starved is None:
                 first_starved = (ei, sr)
@@ -322,7 +322,7 @@ def evaluate_ddp_like(trace: dict, sim, outs, prop: str, probes: Counter, replic
         c = dict(ctx)
         c["blocked"] = sim.deadlock_info
         c["progress"] = progress
-        c["starved_at_or_before"] = first_starved is not None and first_starved[0] <= ev_i
+        c["starved_at_or_before"] = first_starved is not None and first_starved[0] <= max(progress)
         c["starved"] = c["starved_at_or_before"]
         return Violation(prop, "deadlock", ev_i, c)
     if sim.outcome == "step_cap":
@@ -331,7 +331,7 @@ def evaluate_ddp_like(trace: dict, sim, outs, prop: str, probes: Counter, replic
         ev_i = min(progress)
         c = dict(ctx)
         c["mismatch"] = sim.mismatch
-        c["starved"] = first_starved is not None and first_starved[0] <= ev_i
+        c["starved"] = first_starved is not None and first_starved[0] <= max(progress)
         return Violation(prop, "collective_mismatch", ev_i, c)
     if sim.outcome == "rank_failed":
         if natural_world_failure(trace, sim, outs):
